@@ -69,7 +69,7 @@ def EXACT(
 def FIND(
         find_text: func_xltypes.XlText,
         within_text: func_xltypes.XlText,
-        start_num: func_xltypes.Number = 0,
+        start_num: func_xltypes.Number = 1,
 ) -> func_xltypes.Number:
     """FIND and FINDB locate one text string within a second text string,
     and return the number of the starting position of the first text string
@@ -84,8 +84,10 @@ def FIND(
     start_num_int = int(start_num)
 
     # Excel operates in 1-based land, Python is usually 0-based.
-    if start_num_int > 0:
-        start_num_int = start_num_int - 1
+    if start_num_int < 1 or start_num_int > len(within_text_str) + 1:
+        raise xlerrors.ValueExcelError(
+            f'start_num {start_num_int} is outside of the text.')
+    start_num_int = start_num_int - 1
 
     try:
         index = within_text_str.index(find_text_str, start_num_int) + 1
@@ -232,7 +234,9 @@ def TRIM(
     https://support.office.com/en-us/article/
         trim-function-410388fa-c5df-49c6-b16c-9e5630b479f9
     """
-    return str(text).strip()
+    # Only the space character is trimmed; runs of spaces between words
+    # collapse to a single space.
+    return ' '.join(word for word in str(text).split(' ') if word)
 
 
 @xl.register()
